@@ -17,6 +17,9 @@ through the double-precision value of Phi(x) get the exact conditioning allowanc
 documented step (h^2/8 max|g''| for the linear table, 4*5/384 h^4 max|g''''| for the cubic
 spline; derivatives estimated from the oracle itself).  Monotone on the sorted grid,
 ``inverse(transform(x)) = x``, classic Jacobian = phi(x)/pdf(q(x)), log-normal moments.
+Location/scale families (normal, log-normal, uniform) are additionally judged on the standardised
+scale ((y - location)/width against the standardised quantile, tolerance = float resolution of the
+output), which also sets the resolution of the strict-monotonicity test for very narrow targets.
 """
 import numpy as np
 
@@ -27,7 +30,10 @@ META = dict(
               "with conditioning- and interpolation-aware tolerances",
     rule=("case = one (transform, parameter set) pair: transform from the list of 9 nifty.re and 10 "
           "nifty.cl entries (function, model class, scalar / per-element array parameters, Vector input), "
-          "parameters log-uniform over shape 0.5..50, scale 1e-3..1e3, step/delta in {1e-2,2e-2,5e-2}; "
+          "parameters log-uniform over shape 0.5..50, scale 1e-3..1e3 (a third of the cases from the "
+          "corners shape 0.2..200, scale 1e-8..1e8), log-normal sigma/mean swept down to 1e-10, uniform "
+          "priors with special bound pairs (width exactly 1 with/without offset, negative ranges; python "
+          "float / int / numpy scalar / 0-d / (G,) array bounds), step/delta in {1e-2,2e-2,5e-2}; "
           "evaluated on 23 fixed quantiles (p = 1e-12..1-1e-12) + 9 random points. "
           "non-trivial: non-default parameters (all grids contain |x| > 3); distinct = distinct "
           "descriptor (transform, variant, rounded parameters)"),
@@ -126,6 +132,7 @@ def judge(ck, sp, x):
         cond = np.where(pdf > 0, 4 * EPS * np.minimum(p, 1.0) / pdf, 0.0) if sp["mode"] == "viacdf" else 0.0 * q
     e_T = 0.0 * q
     e_Tp = 0.0 * q
+    noise_T = 0.0 * q
     if sp.get("interp"):
         it = sp["interp"]
         h, order, gfun = it["h"], it["order"], it["g"]
@@ -149,6 +156,7 @@ def judge(ck, sp, x):
         # quantile saturates, e.g. Beta with b < 1 near 1: slope of the table ~ 1e-11, values ~ 1)
         cond_T = cond_T + 2 * EPS * np.abs(gfun(x))
         e_T = e_T + namp * cond_T
+        noise_T = namp * cond_T
         e_Tp = e_Tp + 6.0 * namp * cond_T / h
         ck.hit("interp_pairs")
     out = sp.get("out", "lin")
@@ -197,8 +205,19 @@ def judge(ck, sp, x):
     # per-element parameters: every grid point has its own target distribution
     perelem = any(np.ndim(v) > 0 for v in list(dist.args) + list(dist.kwds.values()))
     ck.hit("perelement_pairs" if perelem else "monotone_checks")
-    if not perelem and np.any(np.diff(y) < 0):
-        j = int(np.argmin(np.diff(y)))
+    # non-decreasing up to the float resolution of the output (a few ulps; for tables the rounding
+    # noise of the tabulated values that the interpolation passes through)
+    if out == "log":
+        slack = 8 * EPS * (1 + np.abs(yt)) + noise_T
+    elif sp.get("interp") and sp["interp"]["space"] == "log":
+        slack = 8 * EPS * (np.abs(yt) + sp.get("abs_scale", 0.0)) + (np.abs(q) + abs(sp.get("loc", 0.0))) * noise_T
+    elif sp.get("interp"):
+        slack = 8 * EPS * (np.abs(yt) + sp.get("abs_scale", 0.0)) + noise_T * sp["interp"]["post_scale"]
+    else:
+        slack = 8 * EPS * (np.abs(yt) + sp.get("abs_scale", 0.0))
+    slack = np.minimum(slack + 0 * tol, tol)
+    if not perelem and np.any(np.diff(y) < -(slack[1:] + slack[:-1])):
+        j = int(np.argmin(np.diff(y) + (slack[1:] + slack[:-1])))
         ck.violation(f"{key}:monotone", f"{key} is not monotone non-decreasing",
                      x=[float(x[j]), float(x[j + 1])], y=[float(y[j]), float(y[j + 1])], desc=desc)
     # strict monotonicity where the oracle separates neighbours by more than the tolerances
@@ -234,7 +253,9 @@ def judge(ck, sp, x):
                 tolj = 1e-7 * np.abs(dtrue) + e_Tp * sp["interp"]["post_scale"]
             else:
                 # closed-form Jacobians through Phi(x): conditioning of 1/(1-p) like terms
-                tolj = np.abs(dtrue) * (1e-8 + 8 * EPS / np.maximum(np.minimum(p, 1 - p), 1e-300))
+                # (+ rounding of q - loc inside the oracle's pdf for |loc| >> scale)
+                tolj = np.abs(dtrue) * (1e-8 + 8 * EPS / np.maximum(np.minimum(p, 1 - p), 1e-300)
+                                        + 16 * EPS * sp.get("loc_over_scale", 0.0))
         sel = (np.abs(x) <= 5.0) & np.isfinite(dtrue) & np.isfinite(tolj)
         ck.hit("jacobian_points", int(sel.sum()))
         badj = sel & ~(np.abs(dj - dtrue) <= tolj)
@@ -345,7 +366,7 @@ def b_re_lognormal(S, rng):
     inv = sd.lognormal_invprior(m_, s_)
     return dict(key="re:lognormal_prior", fn=fn, dist=stats.lognorm(s=ls, scale=np.exp(lm)), mode="exact",
                 inv=lambda y: np.asarray(inv(jnp.asarray(y))),
-                inv_cond=lambda x, y: 8 * EPS * (np.abs(lm) + np.abs(np.log(np.maximum(y, 1e-300)))) / ls,
+                inv_cond=lambda x, y: 8 * EPS * (1 + np.abs(lm) + np.abs(np.log(np.maximum(y, 1e-300)))) / ls,
                 moments=("re", mean, std), stdz=stdz_lognormal(lm, ls),
                 desc=dict(t="re:lognormal", via=via, ratio=float(np.min(std / mean)), mean=np.ravel(mean)[:2].tolist(), std=np.ravel(std)[:2].tolist(), arr=bool(n)),
                 default=False)
@@ -689,6 +710,7 @@ def b_cl_laplace(S, rng):
     op = ift.LaplaceOperator(dom) if default else ift.LaplaceOperator(dom, loc, scale)
     return dict(key="cl:LaplaceOperator", fn=lambda x: cl_apply(S, op, x), dist=stats.laplace(loc, scale),
                 mode="viacdf", abs_scale=abs(loc), default=default, jac=lambda x: cl_jac(S, op, x),
+                loc_over_scale=abs(loc) / scale,
                 inv=lambda y: op.inverse(cl_field(S, y)[1]).asnumpy(),
                 inv_cond=lambda x, y: (8 * EPS * (abs(loc) / scale + 1 + np.abs(y - loc) / scale)
                                        * np.minimum(ndtr(x), ndtr(-x)) + 8 * EPS * (x > 0)) / np.maximum(phi(x), 1e-300),
